@@ -72,6 +72,23 @@ def t_class(m, d1, d2, wd, typed=True):
     return M, [("a", "a", e1, d1), ("b_", "b", e2, d2)]
 
 
+def t_inherited(m, d1, d2, wd, ubf):
+    """the defaulted / renamed properties are INHERITED from a base class (optionally already used); the child adds one"""
+    from vf.common import Object, ObjectMeta, Property, Integer, accepts
+    from statham.schema.elements.meta import ObjectClassDict
+
+    kw = (lambda d: {"default": d}) if wd else (lambda d: {})
+    e1 = lambda: Integer(minimum=m, **kw(d1))
+    e2 = lambda: Integer(maximum=m, **kw(d2))
+    Base = Object.inline("Base", properties={"a": Property(e1(), required=wd), "b_": Property(e2(), source="b")})
+    if ubf:
+        accepts(Base, {"a": m, "b": m})
+    cd = ObjectClassDict()
+    cd["c"] = Property(Integer())
+    Child = ObjectMeta("Child", (Base,), cd)
+    return Child, [("a", "a", e1, d1), ("b_", "b", e2, d2)]
+
+
 def t_parsed(m, d1, d2, wd, typed=True):
     from vf.common import parse_s, Integer
 
@@ -201,6 +218,7 @@ def harnesses(ctx) -> List[H]:
         ("class_untyped", "m: int, d1: int, d2: int", "t_class(m, d1, d2, wd, False)", DV, pre_ab),
         ("parsed_typed", "m: int, d1: int, d2: int", "t_parsed(m, d1, d2, wd, True)", DV, ["len(v) <= 2", "all(k in ('a', 'a b', 'x') for k in v)"]),
         ("parsed_untyped", "m: int, d1: int, d2: int", "t_parsed(m, d1, d2, wd, False)", DV, ["len(v) <= 2", "all(k in ('a', 'a b', 'x') for k in v)"]),
+        ("inherited", "m: int, d1: int, d2: int, ubf: bool", "t_inherited(m, d1, d2, wd, ubf)", DV, pre_ab),
         ("pattern_overlap_typed", "m: int, d1: int, d2: int", "t_pattern_overlap(m, d1, d2, wd, True)", DV, ["len(v) <= 2", "all(k in ('a', 'ab', 'x') for k in v)"]),
         ("pattern_overlap_untyped", "m: int, d1: int, d2: int", "t_pattern_overlap(m, d1, d2, wd, False)", DV, ["len(v) <= 2", "all(k in ('a', 'ab', 'x') for k in v)"]),
         ("class_default", "m: int, d1: int, d2: int", "t_class_default(m, d1, d2, wd)", DV, pre_ab),
